@@ -314,7 +314,7 @@ def run_case(case, ctx):
                     gdf = need(gg.to_geodataframe(periodic_elements="ignore", engine="geopandas"), "columns", "Grid.to_geodataframe")
                     lon = np.asarray(gg.node_lon.values, float)
                     conn = np.asarray(gg.face_node_connectivity.values).reshape(gg.n_face, -1)
-                    got_rows = [sorted({round(float(x), 3) for x, _ in gm.exterior.coords}) for gm in gdf["geometry"]]
+                    got_rows = [sorted({round(float(x), 3) for x, _ in (gm.to_shapely() if hasattr(gm, "to_shapely") else gm).exterior.coords}) for gm in gdf["geometry"]]
                     want_rows = [sorted({round(float(np.float32(lon[j])), 3) for j in row if j != FILL}) for row in conn]
                     if got_rows != want_rows:
                         k = next((i for i, (a, b) in enumerate(zip(got_rows, want_rows)) if a != b), 0)
